@@ -764,6 +764,18 @@ def mask_cover(prog, floor=30):
             if not extra:
                 continue
             why = accepted.get((t, nm, '%#x' % o))
+            if not why:
+                # the extra bits are an operand field of this row's type: the assembler arm of the type inserts a field
+                # exactly where each run of extra bits starts (arm64 `saddl2` = `saddl` with Q, which the arrangement sets)
+                ty = None
+                for c_ in ('type', 'op_type', 'operand_type'):
+                    if c_ in r:
+                        ty = const(r.get(c_))
+                ash = _asm_insert_shifts(prog, t, ty)
+                runs = [b for b in range(32) if (extra >> b) & 1 and (b == 0 or not (extra >> (b - 1)) & 1)]
+                if ash is not None and runs and all(b in ash for b in runs):
+                    why = 'the assembler arm of this operand type inserts an operand field at bit(s) %s, so the earlier row that ' \
+                          'matches prints the same instruction with that operand' % runs
             if why:
                 obs.append(Ob('MASK-COVER', g['file'], r['opcode']['l'], t, '%s:%s:%#x' % (t, nm, o), OBSERVATION,
                               'opcode bits %#x outside the mask %#x, accepted: %s' % (extra, m, why)))
@@ -835,3 +847,31 @@ def guard_len(prog, floor=8):
     if len(obs) < floor:
         raise AnalysisBroken('GUARD-LEN: only %d guarded returns' % len(obs))
     return RuleResult('GUARD-LEN', obs, floor, {})
+
+
+_AINS = {}
+
+
+def _asm_insert_shifts(prog, table, tyval):
+    """Bit positions at which the assembler arm(s) for operand type `tyval` of `table` insert non-constant fields
+    (None when the assembler has no switch arm for it)."""
+    from rules import fieldshift
+    if table not in _AINS:
+        per = {}
+        for afn in prog.fns.values():
+            if not afn.blocks or not afn.file.startswith('asm/'):
+                continue
+            for sw, txt in _switches(afn):
+                if _table(txt) != table:
+                    continue
+                col = txt.split('.')[-1]
+                cs_ = _cases(afn, sw)
+                body_ids = set().union(*[i_ for i_, _ in cs_.values()]) if cs_ else set()
+                for name, (ids, cns) in cs_.items():
+                    vals = {c.get('v') for c in cns if 'v' in c}
+                    blocks = fieldshift._label_blocks(afn, ids, col, vals, None, table, body_ids)
+                    sh = set(fieldshift._asm_shifts(afn, fieldshift._nodes_of_blocks(afn, blocks, body_ids)))
+                    for v in vals:
+                        per.setdefault(v, set()).update(sh)
+        _AINS[table] = per
+    return _AINS[table].get(tyval)
